@@ -652,6 +652,7 @@ func C09(tier string) *engine.Report {
 	var tot engine.BFSTotals
 	for _, c := range bbConfigs(tier) {
 		sp := bbSpec(c[0].(string), c[1].(int))
+		sp.Until = engine.Cap(tier)
 		tot.Add(sp.Name, sp.Run(), rep)
 	}
 	tot.Fill(rep, "reachable states of a real sonic.ByteBuffer (NewByteBuffer and zero value) under the whole public API with integer domains {MinInt,-1,0,1,2,3,len,len+1,MaxInt}, "+
